@@ -43,7 +43,7 @@ SPEC = dict(
         level_note='For the eleven copy / derive methods: the translator harness/translate/pyheap.py with the declared interface of heapsrc.py '
                    '(attribute -> record field, x.copy() / x[k:] = a new container, Slice(..) / Cell(..) keep the pointers given, Builder() = two new '
                    'empty containers; inside to_builder store_cell / store_slice are still read as the model\'s storeFrom), validated on every change '
-                   'against Python object identities (305 calls over a 14-object pool; x.extend(v) / del x[:k] = TvmBitarray.extend / __delitem__ whose '
+                   'against Python object identities (319 calls over a 15-object pool; x.extend(v) / del x[:k] = TvmBitarray.extend / __delitem__ whose '
                    'source text is checked (bounds check first, then in place), x[:k] = a new array, l += m = in-place extension by the elements, '
                    'ba2int / int2ba = value functions, a length / size parameter is a non-negative int, store_bits reads only the items of its argument; '
                    'a raising call leaves the heap as it was: compared on the receiver after every raising call; l.append(x) = in-place extension of the list container by the object itself, l[k] = the '
@@ -1623,7 +1623,8 @@ SRC_CELLS = ['cf:101:-:-1', 'cf:0110:0:-1', 'cf:-:0.1.0.1:-1', 'cf:' + '10' * 51
 SRC_BITS_HISTS = {
     'store_cell': [['bn:B', 'st:5:1', 'sr:5:0', 'sbs:5:1', 'ob:1:hash', 'ob:0:hash'], ['bn:B', 'st:5:2', 'ob:2:hash', 'sbs:5:1', 'ob:2:hash'],
                    ['bn:B', 'sbs:5:101', 'st:5:0', 'st:5:1', 'dv:5:end_cell', 'st:5:1', 'sr:5:0', 'ob:6:hash', 'ob:1:hash'],
-                   ['bn:B', 'sr:5:0', 'st:5:2', 'ob:2:hash'], ['bn:B', 'st:5:3', 'sbs:5:1', 'ob:3:hash']],
+                   ['bn:B', 'sr:5:0', 'st:5:2', 'ob:2:hash'], ['bn:B', 'st:5:3', 'sbs:5:1', 'ob:3:hash'],
+                   ['bn:B', 'st:5:3', 'st:5:1', 'dv:5:end_cell', 'ob:6:hash'], ['bn:B', 'st:5:3', 'st:5:2', 'st:5:1', 'dv:5:end_cell']],
     'store_slice': [['dv:1:begin_parse', 'bn:B', 'st:6:5', 'sbs:6:1', 'sr:6:0', 'sk:5:1', 'ob:1:hash', 'dv:6:end_cell'],
                     ['dv:2:begin_parse', 'lr:5', 'bn:B', 'st:6:5', 'sr:6:1', 'lr:5', 'ob:2:hash', 'dv:5:to_cell', 'dv:6:end_cell'],
                     ['dv:2:begin_parse', 'bn:B', 'sr:6:0', 'st:6:5', 'ob:2:hash']],
